@@ -16,9 +16,21 @@ NAMES = {"PlanOrExecError", "NotConverged", "SecondPlanNotEmpty"}
 
 def run(tier):
     v = vf.Verdict("C01", tier, "model_checking")
-    viols, full, n, info = engine.run_engine(tier)
+    viols, full, n, info = engine.run_engine(tier, cli_every=12 if tier == "quick" else 3)
     bad = engine.report(v, viols, full, NAMES)
-    cli = cli_part(v, tier)
+    cviols, cfull = info.pop("cli", ([], []))
+    cbad = set()
+    for i, name in cviols:
+        if name in NAMES | {"RowsOK"}:
+            o = cfull[i - 1]
+            cbad.add(i)
+            case = engine.case_of(o, name)
+            case["part"] = "cli"
+            v.violation(case, engine.detail_of(o))
+    cskip = sum(1 for o in cfull if o["skipped"])
+    if cfull and cskip > len(cfull) // 5:
+        raise vf.Infra("the CLI slice could not set up %d of %d pairs: %s" % (cskip, len(cfull), [o["skipped"] for o in cfull if o["skipped"]][:3]))
+    cli = {"n": len(cfull) - cskip, "ok": len(cfull) - cskip - len(cbad)}
     v.cov = {"states": n, "transitions": n, "traces_validated_against_impl": n - info["skipped"] - len(bad) + cli.get("ok", 0),
              "pairs": n, "skipped_by_engine": info["skipped"], "skip_reasons": info["skip_reasons"], "cli_pairs": cli.get("n", 0),
              "explanation": "states = (current, desired) pairs exported by TLC from SqliteModel.tla (single edits to/from 4 seed catalogues covering autoincrement, "
@@ -30,9 +42,3 @@ def run(tier):
     return v.finish()
 
 
-def cli_part(v, tier):
-    try:
-        from checks import c01cli
-    except ImportError:
-        return {}
-    return c01cli.run(v, tier)
